@@ -231,6 +231,7 @@ func c04Absolute(cfg Config, res *Result, rng *RNG) {
 
 func suiteC04(cfg Config, res *Result) {
 	defer c04Shared(res)
+	defer c04PairOrder(res)
 	defer c04FailSites(cfg, res, NewRNG(cfg.Seed^0xfa11))
 	defer c04Absolute(cfg, res, NewRNG(cfg.Seed^0xab5))
 	res.Rule = "failing executions: for every registered filter and every argument shape that makes it fail, a template with two such sites on different lines chosen by the context, executed 4 times: each error names the site that failed in that execution; one compiled template executed n = 2..5 times with a mix of contexts (equal and different, some failing: invalid key, division by zero via the context), for grammar-generated programs over every modelled tag plus programs focused on cycle / ifchanged / whitespace options / macros / include, under all four TrimBlocks x LStripBlocks settings (also toggled between executions); direct oracle: every result equals the first render of a freshly compiled copy with the same context and options; non-trivial = history containing two equal contexts; distinct by (program, history)"
